@@ -7,6 +7,11 @@ V = Path(__file__).resolve().parent.parent
 TECH = "TLA+ specification model-checked with TLC, bound to the implementation by trace validation (TLC checks recorded implementation traces against the abstract spec) and replay of TLC-generated cases/behaviours"
 
 CLAIMS = {
+    "C16": {
+        "text": "Specification Rolling (A): the appender as clock readings -> period index, `cur` / next rotation instant, files as period -> buffer sequence, creation order, pruning to the file limit; MCRolling (M): 3 concurrent MakeWriter users around a boundary with one step per should_rollover load / CAS / refresh_writer / read lock / write, checked by TLC for exactly-once storage, right file (or the file being replaced) and one rotation per boundary. Binding: 300/3000 appenders (4 rotation kinds x prefix/suffix x file limit) created at scripted instants (year / month ends, leap days, random) through the clock hook, 8-20 writes with standing, advancing, exact-boundary, boundary-1, multi-period and backward clock readings through both interfaces, plus races of 2-3 MakeWriter users scheduled at the appender's yield points; after every write TLC validates the directory listing (file names mapped to periods by an independent calendar, contents to buffer ids) against A.",
+        "note": "Clock readings are below 2^31 (TLC integers), so the year-2100 leap rule of file names is out of reach; creation-time ordering relies on the harness keeping rotations >= 12 ms apart. Hooks: clock override + yield points (9b2dc2a).",
+        "ref": "4 (C16)",
+    },
     "C13": {
         "text": "Specification FmtRecord: writer expressions over recording sinks denote, per event metadata, the set of sinks to be written (Route); TLC checks exhaustively (all 2187 expressions to depth 3 over 3 sinks, 5 levels x 2 targets) that the operational reading of the real combinators (OptionalWriter / Tee / OrElse as MakeFor) denotes Route. Binding: 300/3000 configurations (full/compact/pretty/json x option combinations x span-event settings x 14 real MakeWriterExt expressions with random parameters) run a 40-operation history (events with contextual / explicit / root parents, span lifecycle, events whose Debug field panics, bursts of 2-8 threads emitting simultaneously); every make_writer_for / write on every sink is recorded raw, projected, and TLC validates per operation: exactly the Route sinks, each asked once with the event's metadata and written once with one complete newline-terminated record naming the level, the event's scope in nesting order and only this event's message.",
         "note": "Record text is projected with regular expressions / the JSON parser (trusted). F6 (stale buffer after an aborted format) and F19 (pretty formatter ignores explicit root) were found and fixed (1c8f256, 7e2222b).",
